@@ -5,6 +5,7 @@ package storegw
 import (
 	"fmt"
 	"math/rand"
+	"strings"
 	"testing"
 
 	"github.com/oklog/ulid/v2"
@@ -157,6 +158,55 @@ func TestC15(t *testing.T) {
 			out = append(out, o)
 		}
 		ev["calls"] = out
+		// the same calls again with block matchers (request hints): __block_id =~ / !~ a seeded subset
+		// of the blocks; [mint, maxt, maxres, ok, [selected ids], [ids of the matching blocks]]
+		mr := rand.New(rand.NewSource(vt.Int64(c["qseed"]) + 1))
+		mout := make([][]any, 0, len(qs))
+		for qi, q := range qs {
+			if len(metas) == 0 || (qi%3 != 0 && len(qs) > 12) {
+				continue
+			}
+			var pick []string
+			allowed := []int{}
+			neg := mr.Intn(3) == 0
+			for k, m := range metas {
+				in := mr.Intn(2) == 0
+				if in {
+					pick = append(pick, m.ULID.String())
+				}
+				if in != neg {
+					allowed = append(allowed, k+1)
+				}
+			}
+			if len(pick) == 0 {
+				pick = []string{"none"}
+			}
+			typ := labels.MatchRegexp
+			if neg {
+				typ = labels.MatchNotRegexp
+			}
+			bm := []*labels.Matcher{labels.MustNewMatcher(typ, "__block_id", strings.Join(pick, "|")), labels.MustNewMatcher(labels.MatchEqual, "cluster", "a")}
+			o := []any{q[0], q[1], q[2], 1, []int{}, allowed}
+			func() {
+				defer func() {
+					if r := recover(); r != nil {
+						o[3] = 0
+						panics = append(panics, fmt.Sprint(r))
+					}
+				}()
+				sel := []int{}
+				for _, id := range set.GetForMatching(q[0], q[1], q[2], bm) {
+					n, ok := idOf[id]
+					if !ok {
+						n = -1
+					}
+					sel = append(sel, n)
+				}
+				o[4] = sel
+			}()
+			mout = append(mout, o)
+		}
+		ev["mcalls"] = mout
 		ev["panics"] = panics
 		return ev
 	})
